@@ -926,6 +926,15 @@ int EGLPNUM_TYPENAME_ILLlib_newrow (
 	rval = EGLPNUM_TYPENAME_ILLlib_addrow (lp, B, 0, 0, 0, rhs, sense, range, name);
 	CHECKRVALG (rval, CLEANUP);
 
+	/* unlike ILLlib_addrows this path does not extend the pricing norms kept
+	 * with the basis: drop them rather than leave an array that is one row
+	 * short for ILLprice_load_rownorms */
+	if (B)
+	{
+		EGLPNUM_TYPENAME_EGlpNumFreeArray (B->rownorms);
+		EGLPNUM_TYPENAME_EGlpNumFreeArray (B->colnorms);
+	}
+
 CLEANUP:
 
 	EG_RETURN (rval);
